@@ -469,8 +469,6 @@ class ConnectionPool(Entity):
 
     def _handle_warmup(self, event: Event) -> Generator[float, None, list[Event] | None]:
         """Create minimum connections."""
-        events = []
-
         while self._total_connections < self._min_connections:
             connection = yield from self._create_connection()
             if self._waiters:
@@ -494,7 +492,10 @@ class ConnectionPool(Entity):
                     },
                 },
             )
-            events.append(timeout_event)
+            # Hand the idle timer to the engine now: held back until every
+            # connection is created it would lie in the past as soon as the
+            # remaining set-up time exceeds idle_timeout (and be dropped).
+            yield 0.0, [timeout_event]
 
         logger.debug(
             "[%s] Warmup complete: created %d connections",
@@ -502,7 +503,7 @@ class ConnectionPool(Entity):
             self._min_connections,
         )
 
-        return events if events else None
+        return None
 
     def _handle_idle_timeout(self, event: Event) -> list[Event] | None:
         """Handle idle timeout for a connection."""
